@@ -88,7 +88,7 @@ def run(chk, replay=None):
     with S.Env() as env:
         S.table_obligations(chk, env)
         chk.proof()
-        S.probe_p13(env)
+        S.probe_switches(chk, env)
         specs = ([replay["input"]] if "input" in replay else []) if replay else cases(chk, env)
         stats, rrs, infos, specs = S.drive(chk, env, "C13", specs, nontrivial)
         for sp, rr in zip(specs, rrs):
@@ -98,7 +98,6 @@ def run(chk, replay=None):
         reached = sum(1 for sp, rr in zip(specs, rrs) if S.oracle_c13(sp, rr)[0] == sp["pool"])
         stats["runs_where_overlap_reached_pool"] = reached
         chk.cov["distribution"] = stats
-        chk.cov["p13_repaired_in_tree"] = env.p13_fixed
         for sp in specs[:2] + specs[-2:]:
             chk.sample(json.dumps(S.strip_spec(sp))[:400])
     chk.cov["rule"] = ("one evaluation = one real `xvc pipeline run` with process_pool_size set by -c, trace replayed through the extracted model (acquire / release lines carry the exact counter values), "
